@@ -322,4 +322,107 @@ theorem applied_home {n : Nat} {s : System} (h : Inv n s) {e : Ev} (he : e ∈ s
     exact ⟨sh, hsh, (List.mem_filter.mp hm).1⟩
   · simp at hm
 
+/-! ### one lifetime, clock inside the id window: ids are pairwise distinct -/
+
+/-- Per-shard order invariant of a single lifetime. -/
+structure ShardOk (i : Nat) (sh : Shard) : Prop where
+  gen : GenOk sh.gen
+  sorted : (sh.events.map Ev.id).Pairwise (· < ·)
+  bound : ∀ e ∈ sh.events, InRange sh.gen.last ∧ e.id ≤ composeA sh.gen.last (tagArg i) sh.gen.seq
+
+def Mono (s : System) : Prop := ∀ i sh, s.shards[i]? = some sh → ShardOk i sh
+
+theorem mono_init (n : Nat) : Mono (System.init n) := by
+  intro i sh h
+  simp only [System.init, List.getElem?_replicate] at h
+  split at h
+  · simp only [Option.some.injEq] at h; subst h
+    exact ⟨init_ok, by simp, by simp⟩
+  · simp at h
+
+theorem mono_store {s : System} (h : Mono s) (ctx : Ctx) (key : Nat) (clk : List Nat)
+    (hclk : ∀ r ∈ clk, InRange r) : Mono (s.store ctx key clk) := by
+  unfold System.store
+  split
+  · exact h
+  · simp only
+    split
+    · exact h
+    · rename_i sh hsh
+      split
+      · exact h
+      · rename_i id g clk' hstep
+        have hi : route ctx s.shards.length < s.shards.length := (List.getElem?_eq_some_iff.mp hsh).1
+        have hok := h _ sh hsh
+        obtain ⟨hg', hin', hid, _, hprev⟩ := step_spec hok.gen hclk hstep
+        intro j shj hj
+        by_cases hij : route ctx s.shards.length = j
+        · subst hij
+          rw [List.getElem?_set_self hi] at hj
+          simp only [Option.some.injEq] at hj
+          subst hj
+          have hlt : ∀ e ∈ sh.events, e.id < id := by
+            intro e he
+            obtain ⟨hr, hle⟩ := hok.bound e he
+            exact Nat.lt_of_le_of_lt hle (hprev hr)
+          refine ⟨hg', ?_, ?_⟩
+          · simp only [List.map_append, List.map_cons, List.map_nil]
+            rw [List.pairwise_append]
+            refine ⟨hok.sorted, by simp, ?_⟩
+            intro a ha b hb
+            simp only [List.mem_singleton] at hb
+            subst hb
+            obtain ⟨e, he, rfl⟩ := List.mem_map.mp ha
+            exact hlt e he
+          · intro e he
+            refine ⟨hin', ?_⟩
+            rcases List.mem_append.mp he with he | he
+            · exact Nat.le_of_lt (by rw [← hid]; exact hlt e he)
+            · simp only [List.mem_singleton] at he
+              subst he
+              exact Nat.le_of_eq hid
+        · rw [List.getElem?_set_ne hij] at hj
+          exact h j shj hj
+
+def NoRestart (ops : List Op) : Prop := ∀ op ∈ ops, op ≠ Op.restart
+
+def ClocksInRange (ops : List Op) : Prop :=
+  ∀ c k clk, Op.store c k clk ∈ ops → ∀ r ∈ clk, InRange r
+
+theorem mono_run (ops : List Op) : ∀ {s : System}, Mono s → NoRestart ops → ClocksInRange ops →
+    Mono (s.run ops) := by
+  induction ops with
+  | nil => intro s h _ _; exact h
+  | cons op ops ih =>
+    intro s h hnr hcr
+    simp only [System.run, List.foldl_cons]
+    apply ih
+    · cases op with
+      | store c k clk => exact mono_store h c k clk (hcr c k clk (by simp))
+      | restart => exact absurd rfl (hnr _ (by simp))
+    · intro op hop; exact hnr op (by simp [hop])
+    · intro c k clk hop; exact hcr c k clk (by simp [hop])
+
+/-- Ids of everything the shards hold are pairwise distinct when every shard's ids increase
+and the tag identifies the shard (`n ≤ 2^10`). -/
+theorem allEvents_ids_nodup {n : Nat} {s : System} (hinv : Inv n s) (hm : Mono s)
+    (hn : n ≤ 2 ^ idShardBits) : ((allEvents s).map Ev.id).Nodup := by
+  unfold List.Nodup allEvents
+  rw [List.pairwise_map, List.pairwise_flatMap]
+  constructor
+  · intro sh hsh
+    obtain ⟨i, hi⟩ := List.getElem?_of_mem hsh
+    have := (hm i sh hi).sorted
+    rw [List.pairwise_map] at this
+    exact this.imp (fun h => Nat.ne_of_lt h)
+  · rw [List.pairwise_iff_getElem]
+    intro i j hi hj hij x hx y hy heq
+    have hx' := (hinv.home i _ (List.getElem?_eq_getElem hi) x hx).2.1
+    have hy' := (hinv.home j _ (List.getElem?_eq_getElem hj) y hy).2.1
+    rw [heq, hy'] at hx'
+    have h1024 : (2 : Nat) ^ idShardBits = 1024 := by unfold idShardBits; rfl
+    have hlen := hinv.len
+    simp only [tagArg, shardMod, h1024, Snel.Gen.C12.shardTagCastBits] at hx' hn
+    omega
+
 end Snel.Route
